@@ -562,6 +562,11 @@ def run_shard(shard, ctx):
                 data = bytes(off) + struct.pack("<II", off + 16, size) + b"KEY!" + b"hintHINT" + b"payload"
                 check_case({"data": data, "seed_kind": "crafted-artifactkit", "fault": f"size={size}", "calls": [("artifactkit", "default"), ("from_bytes", "default")]}, ctx)
                 check_case({"data": data[: off + 9], "seed_kind": "crafted-artifactkit", "fault": "truncated-header", "calls": [("artifactkit", "default")]}, ctx)
+                if size < 100:
+                    # masks with zero bytes, the all-zero mask included (the payload is then stored as it is)
+                    for mask in (b"\0\0\0\0", b"\0\0\0\1", b"K\0\0\0"):
+                        d2 = bytes(off) + struct.pack("<II", off + 16, size) + mask + b"hintHINT" + b"payload" + bytes(off)
+                        check_case({"data": d2, "seed_kind": "crafted-artifactkit", "fault": f"mask={mask.hex()},size={size}", "calls": [("artifactkit", "default"), ("artifactkit:file", "default")]}, ctx)
         # minimal PE shapes
         for arch in ("x86", "x64"):
             img, info = P.build_pe(rng, arch=arch, nsec=2)
